@@ -593,6 +593,7 @@ func init() {
 				}},
 				{Name: "concurrent_duplicates", N: c.Pick(16, 160), Fn: c08ConcurrentDuplicates},
 				{Name: "aborted_neighbour", N: c.Pick(12, 120), Fn: c07AbortedNeighbour},
+				{Name: "concurrent_signed_requests", N: c.Pick(4, 40), Workers: 1, Fn: c07ConcurrentSigned},
 				{Name: "concurrent_first_use", N: c.Pick(10, 100), Fn: c16ConcurrentFirstUse},
 				{Name: "entropy_fault", N: c.Pick(2, 10), Workers: 1, Fn: c15Entropy},
 			}
